@@ -61,7 +61,12 @@ def make_pin(ch, kind):
     if kind == "digits":
         return "12345678"
     if kind == "nonalnum":
-        return ch.pick(["abcd-123", "abcd 123", "abc!1234"], "pin.nonalnum")
+        # punctuation, and letters / digits outside ASCII (what str.isalnum() or a byte-wise
+        # Latin-1 reading would let through); 8 characters or 8 UTF-8 bytes
+        return ch.pick(["abcd-123", "abcd 123", "abc!1234", "abc123\u00b5", "123456\u00b5",
+                        "abcd123\u00e9", "abcdefg\u00df", "1234567\u00aa", "\u00e1bcd1234",
+                        "abcd12\u0663\u0664", "\uff11\uff12345678", "abc12\u0434",
+                        "ab\u00c2\u00b512", "1234\u00c3\u00a9"], "pin.nonalnum")
     return None
 
 
@@ -313,6 +318,9 @@ MUTANTS = {
     "pubkeys-wrong-path-order": _m("admin.pubkeys", "do_get_pubkeys",
                                    "pubkeys[path_name] = hsm.get_public_key(path)",
                                    "pubkeys[path_name] = hsm.get_public_key(PATHS['btc'])"),
+    "policy-reads-bytes-as-latin1": _m("ledger.pin.BasePin", "is_valid",
+                                       "if not all(map(lambda c: chr(c) in cls.POSSIBLE_CHARS, pin)):",
+                                       "if not all(map(lambda c: chr(c).isalnum(), pin)):"),
     "policy-allows-digits-only": _m("ledger.pin.BasePin", "is_valid",
                                     "return any(map(lambda c: chr(c) in cls.ALPHA_CHARS, pin))",
                                     "return True"),
